@@ -236,19 +236,81 @@ def field_writes(body, field, skip_tracing=True):
     return out
 
 
+def _return_aliases(body):
+    """Locals that stand for the return value in a body with inlined frames (mir.Body._inline_new_fns): `full` = the return local of
+    an inlined helper whose result the caller returns as is; `err` = one whose result goes through `?` (its Err values leave the
+    caller). Fixpoint over nested frames."""
+    frames = getattr(body, "frames", None)
+    if not frames:
+        return {0}, set(), set()
+    full, err, copies = {0}, set(), set()
+    changed = True
+    while changed:
+        changed = False
+        for fr in frames:
+            d = fr["dest"]
+            if not d.is_local():
+                continue
+            D = d.local
+            if D in full and fr["ret"] not in full:
+                full.add(fr["ret"]); changed = True
+            # `return helper(..)` / helper call in tail position: the hand-over to the return local follows the call directly
+            # (a result parked in a local and returned later keeps its own, later, return site - as before the extraction)
+            chain, cur = [], fr["target"]
+            for _ in range(5):
+                chain.append(cur)
+                tb = body.blocks[cur]
+                if tb.term.kind != "goto":
+                    break
+                cur = tb.term.d["t"]
+            for bi in chain:
+                for si, st in enumerate(body.blocks[bi].stmts):
+                    if st.kind == "assign" and st.dest.is_local() and st.dest.local in full and st.rv["k"] == "use" and not st.rv["a"].is_const() and st.rv["a"].place.is_local() and st.rv["a"].place.local == D:
+                        copies.add((bi, si))
+                        if fr["ret"] not in full:
+                            full.add(fr["ret"]); changed = True
+            for b in body.calls(live_only=False):
+                c = b.term.callee or b.term.declared or ""
+                if (c.endswith("::Try>::branch") or (b.term.declared or "").endswith("Try::branch")) and b.term.args and not b.term.args[0].is_const() and b.term.args[0].place.is_local() and b.term.args[0].place.local == D:
+                    if fr["ret"] not in err and fr["ret"] not in full:
+                        err.add(fr["ret"]); changed = True
+            if D in err and fr["ret"] not in err and fr["ret"] not in full:
+                err.add(fr["ret"]); changed = True
+    for fr in frames:
+        # the statement that hands a frame's return local to its destination is plumbing, not a return site
+        for b, si, st in body.assigns():
+            if st.rv["k"] == "use" and not st.rv["a"].is_const() and st.rv["a"].place.is_local() and st.rv["a"].place.local == fr["ret"] and st.dest == fr["dest"]:
+                copies.add((b.idx, si))
+    return full, err, copies
+
+
 def ret_sites(body, sym, pred=None):
-    """Assignments to _0 (return value); pred on the expression."""
+    """Assignments to _0 (return value); pred on the expression. In a body with inlined helper frames, also the assignments to the
+    return local of a helper whose result is returned as is, and the Err(..) values of a helper whose result is propagated by `?`."""
     out = []
+    full, err, copies = _return_aliases(body)
     for b, si, st in body.assigns():
-        if st.dest.is_local() and st.dest.local == 0:
+        if not st.dest.is_local() or (b.idx, si) in copies:
+            continue
+        l = st.dest.local
+        if l in full:
             e = sym.rvalue_expr(st.rv)
             if pred is None or pred(e):
                 out.append((b, si, st, e))
+        elif l in err:
+            e = sym.rvalue_expr(st.rv)
+            if (e[0] == "agg" and e[2] == "Err") or (e[0] == "call" and (e[1] or "").endswith("from_residual")):
+                if pred is None or pred(e):
+                    out.append((b, si, st, e))
     for b in body.calls():
         t = b.term
-        if t.d["d"].is_local() and t.d["d"].local == 0:
+        if t.d["d"].is_local() and t.d["d"].local in full:
             e = sym.call_expr(t)
             if pred is None or pred(e):
+                out.append((b, "term", None, e))
+        elif t.d["d"].is_local() and t.d["d"].local in err:
+            e = sym.call_expr(t)
+            if (e[1] or "").endswith("from_residual") and (pred is None or pred(e)):
                 out.append((b, "term", None, e))
     return out
 
